@@ -93,6 +93,13 @@ def run(cx):
         if any(last(t['fn']['name']) in R.SAMPLER_NAMES for _, t in fn.calls() if t['fn']['k'] == 'def'):
             if name not in known and last(name) not in R.SAMPLER_NAMES:
                 extra.append(name)
+    # a helper that did not exist on the reviewed tree and whose every call was spliced into its callers is not a site of
+    # its own: the draw is judged inside the (inlined) callers above, and an unknown caller shows up here itself
+    from .. import inline as _inl
+    vocab_ = _inl.load_vocab()
+    if vocab_:
+        extra = [n_ for n_ in extra if not (n_ not in vocab_ and not any(t_['fn'].get('k') == 'def' and t_['fn'].get('name') == n_
+                                                                          for g_ in cx.F.fns.values() if g_.name != n_ for _, t_ in g_.calls()))]
     cx.add('R-SITES', 'closed-world', not extra, 'no function other than the 13 operations draws secret scalars: %s' % (extra or 'none'))
     # ---- R-NOSTATIC: nothing can retain a scalar between calls: no mutable or interior-mutable static in the workspace
     bad = [it['name'] for it in cx.F.items.values() if it['kind'] == 'static' and (it.get('mutable') or not it.get('freeze', True))]
